@@ -763,70 +763,107 @@ macro_rules! ckks_body {
                     let mut sb = big(module.gglwe_prepare_tmp_bytes(&kl)); module.gglwe_prepare(&mut kp, &key, sb.borrow());
                     kp.set_p(g); atks.insert(idx, kp); // rotation keys are looked up by rotation index; -1 = conjugation
                 }
+                // optional trailing parameters: p[5] = precision of the DESTINATION of the `_into` operations (0 = the operands'), p[6] =
+                // constant variant (0 real only, 1 imaginary only, 2 both), p[7] = log_delta of the plaintext operand (0 = the ciphertext's)
+                let kdst = if p.len() > 5 && p[5] != 0 { u(p[5]) } else { kct };
+                let cvar = if p.len() > 6 { p[6] } else { 0 };
+                let ldpt = if p.len() > 7 && p[7] != 0 { u(p[7]) } else { ld };
+                let gld = GLWELayout { n: gl.n, base2k: gl.base2k, k: TorusPrecision(kdst as u32), rank: Rank(1) };
                 let meta = CKKSMeta { log_delta: ld, log_budget: kct - ld - b2k };
+                let meta_pt = CKKSMeta { log_delta: ldpt, log_budget: kct - ld - b2k };
                 let mut pt = CKKSPlaintextVecZnx::alloc(gl.n, gl.base2k, meta);
                 module.vec_znx_fill_uniform(b2k, &mut pt.data, 0, &mut src(175));
+                let mut pt2 = CKKSPlaintextVecZnx::alloc(gl.n, gl.base2k, meta_pt);
+                module.vec_znx_fill_uniform(b2k, &mut pt2.data, 0, &mut src(186));
                 let mk = |s1: u64, s2: u64| -> CKKSCiphertext<Vec<u8>> {
                     let mut sc = big(module.ckks_encrypt_sk_tmp_bytes(&gl)); let mut c = CKKSCiphertext::alloc(gl.n, gl.k, gl.base2k);
                     module.ckks_encrypt_sk(&mut c, &pt, &skp, &noise, &mut src(s1), &mut src(s2), sc.borrow()).unwrap(); c };
                 let (a, b) = (mk(176, 177), mk(178, 179));
-                let bytes = |c: &CKKSCiphertext<Vec<u8>>| -> Vec<u8> { c.data().data.clone() };
+                // destination of the `_into` operations: its own number of limbs
+                let dst = || -> CKKSCiphertext<Vec<u8>> { CKKSCiphertext::alloc(gl.n, gld.k, gl.base2k) };
+                // a destination that already holds a ciphertext (accumulating operations): encrypted at its own precision
+                let mkd = |s1: u64, s2: u64| -> CKKSCiphertext<Vec<u8>> {
+                    let mut sc = big(module.ckks_encrypt_sk_tmp_bytes(&gld)); let mut c = CKKSCiphertext::alloc(gl.n, gld.k, gl.base2k);
+                    let md = CKKSMeta { log_delta: ld, log_budget: kdst.saturating_sub(ld + b2k) };
+                    let mut ptd = CKKSPlaintextVecZnx::alloc(gl.n, gl.base2k, md); module.vec_znx_fill_uniform(b2k, &mut ptd.data, 0, &mut src(187));
+                    let nz = NoiseInfos::new(kdst, poulpy_core::DEFAULT_SIGMA_XE, 6.0 * poulpy_core::DEFAULT_SIGMA_XE).unwrap();
+                    module.ckks_encrypt_sk(&mut c, &ptd, &skp, &nz, &mut src(s1), &mut src(s2), sc.borrow()).unwrap(); c };
+                // an operation that REJECTS its operands (Err) is not a scratch matter: the marker makes both fills agree
+                let bytes = ckks_out;
+                // experiment switch: size with the maximum of the query over the destination and the operand layout
+                let use_max = std::env::var("C12_CKKS_MAX").is_ok();
+                let mx = |r: usize, o: usize| -> usize { if use_max { r.max(o) } else { r } };
                 let conj = atks.get(&-1i64).unwrap();
+                let cst: poulpy_ckks::layouts::plaintext::CKKSPlaintextCstRnx<f64> = match cvar {
+                    0 => poulpy_ckks::layouts::plaintext::CKKSPlaintextCstRnx::new(Some(0.75), None),
+                    1 => poulpy_ckks::layouts::plaintext::CKKSPlaintextCstRnx::new(None, Some(-0.5)),
+                    _ => poulpy_ckks::layouts::plaintext::CKKSPlaintextCstRnx::new(Some(0.75), Some(-0.5)) };
                 match $op {
                     160 => $go(module.ckks_encrypt_sk_tmp_bytes(&gl), &mut |s: &mut Scratch<$T>| {
                         let mut r = CKKSCiphertext::alloc(gl.n, gl.k, gl.base2k);
-                        module.ckks_encrypt_sk(&mut r, &pt, &skp, &noise, &mut src(180), &mut src(181), s).unwrap(); bytes(&r) }),
+                        let e = module.ckks_encrypt_sk(&mut r, &pt, &skp, &noise, &mut src(180), &mut src(181), s); bytes(&r, e) }),
                     161 => $go(module.ckks_decrypt_tmp_bytes(&gl), &mut |s: &mut Scratch<$T>| {
-                        let mut o = CKKSPlaintextVecZnx::alloc(gl.n, gl.base2k, meta); module.ckks_decrypt(&mut o, &a, &skp, s).unwrap(); o.data.data.clone() }),
+                        let mut o = CKKSPlaintextVecZnx::alloc(gl.n, gl.base2k, meta_pt); let e = module.ckks_decrypt(&mut o, &a, &skp, s);
+                        if e.is_ok() { o.data.data.clone() } else { vec![0xEE] } }),
                     162 => $go(module.ckks_add_tmp_bytes(), &mut |s: &mut Scratch<$T>| {
-                        let mut r = CKKSCiphertext::alloc(gl.n, gl.k, gl.base2k); module.ckks_add_into(&mut r, &a, &b, s).unwrap(); bytes(&r) }),
-                    163 => $go(module.ckks_mul_tmp_bytes(&gl, &kl), &mut |s: &mut Scratch<$T>| {
-                        let mut r = CKKSCiphertext::alloc(gl.n, gl.k, gl.base2k); module.ckks_mul_into(&mut r, &a, &b, &tkp, s).unwrap(); bytes(&r) }),
-                    164 => $go(module.ckks_square_tmp_bytes(&gl, &kl), &mut |s: &mut Scratch<$T>| {
-                        let mut r = CKKSCiphertext::alloc(gl.n, gl.k, gl.base2k); module.ckks_square_into(&mut r, &a, &tkp, s).unwrap(); bytes(&r) }),
-                    165 => $go(module.ckks_mul_pt_vec_znx_tmp_bytes(&gl, &gl, &meta), &mut |s: &mut Scratch<$T>| {
-                        let mut r = CKKSCiphertext::alloc(gl.n, gl.k, gl.base2k); module.ckks_mul_pt_vec_znx_into(&mut r, &a, &pt, s).unwrap(); bytes(&r) }),
+                        let mut r = dst(); let e = module.ckks_add_into(&mut r, &a, &b, s); bytes(&r, e) }),
+                    163 => $go(mx(module.ckks_mul_tmp_bytes(&gld, &kl), module.ckks_mul_tmp_bytes(&gl, &kl)), &mut |s: &mut Scratch<$T>| {
+                        let mut r = dst(); let e = module.ckks_mul_into(&mut r, &a, &b, &tkp, s); bytes(&r, e) }),
+                    164 => $go(mx(module.ckks_square_tmp_bytes(&gld, &kl), module.ckks_square_tmp_bytes(&gl, &kl)), &mut |s: &mut Scratch<$T>| {
+                        let mut r = dst(); let e = module.ckks_square_into(&mut r, &a, &tkp, s); bytes(&r, e) }),
+                    165 => $go(module.ckks_mul_pt_vec_znx_tmp_bytes(&gld, &gl, &meta_pt), &mut |s: &mut Scratch<$T>| {
+                        let mut r = dst(); let e = module.ckks_mul_pt_vec_znx_into(&mut r, &a, &pt2, s); bytes(&r, e) }),
                     166 => $go(module.ckks_rescale_tmp_bytes(), &mut |s: &mut Scratch<$T>| {
-                        let mut r = mk(176, 177); module.ckks_rescale_assign(&mut r, b2k / 2, s).unwrap(); bytes(&r) }),
-                    167 => $go(module.ckks_rotate_tmp_bytes(&gl, &kl), &mut |s: &mut Scratch<$T>| {
-                        let mut r = CKKSCiphertext::alloc(gl.n, gl.k, gl.base2k); module.ckks_rotate_into(&mut r, &a, 1, &atks, s).unwrap(); bytes(&r) }),
-                    168 => $go(module.ckks_conjugate_tmp_bytes(&gl, &kl), &mut |s: &mut Scratch<$T>| {
-                        let mut r = CKKSCiphertext::alloc(gl.n, gl.k, gl.base2k); module.ckks_conjugate_into(&mut r, &a, conj, s).unwrap(); bytes(&r) }),
+                        let mut r = mk(176, 177); let e = module.ckks_rescale_assign(&mut r, b2k / 2, s); bytes(&r, e) }),
+                    167 => $go(module.ckks_rotate_tmp_bytes(&gld, &kl).max(module.ckks_rotate_tmp_bytes(&gl, &kl)), &mut |s: &mut Scratch<$T>| {
+                        let mut r = dst(); let e = module.ckks_rotate_into(&mut r, &a, 1, &atks, s); bytes(&r, e) }),
+                    168 => $go(module.ckks_conjugate_tmp_bytes(&gld, &kl).max(module.ckks_conjugate_tmp_bytes(&gl, &kl)), &mut |s: &mut Scratch<$T>| {
+                        let mut r = dst(); let e = module.ckks_conjugate_into(&mut r, &a, conj, s); bytes(&r, e) }),
                     169 => $go(module.ckks_mul_pow2_tmp_bytes(), &mut |s: &mut Scratch<$T>| {
-                        let mut r = CKKSCiphertext::alloc(gl.n, gl.k, gl.base2k); module.ckks_mul_pow2_into(&mut r, &a, 3, s).unwrap(); bytes(&r) }),
+                        let mut r = dst(); let e = module.ckks_mul_pow2_into(&mut r, &a, 3, s); bytes(&r, e) }),
                     170 => $go(module.ckks_div_pow2_tmp_bytes(), &mut |s: &mut Scratch<$T>| {
-                        let mut r = CKKSCiphertext::alloc(gl.n, gl.k, gl.base2k); module.ckks_div_pow2_into(&mut r, &a, 3, s).unwrap(); bytes(&r) }),
+                        let mut r = dst(); let e = module.ckks_div_pow2_into(&mut r, &a, 3, s); bytes(&r, e) }),
                     171 => $go(module.ckks_add_pt_vec_znx_tmp_bytes(), &mut |s: &mut Scratch<$T>| {
-                        let mut r = CKKSCiphertext::alloc(gl.n, gl.k, gl.base2k); module.ckks_add_pt_vec_znx_into(&mut r, &a, &pt, s).unwrap(); bytes(&r) }),
+                        let mut r = dst(); let e = module.ckks_add_pt_vec_znx_into(&mut r, &a, &pt2, s); bytes(&r, e) }),
                     172 => $go(module.ckks_neg_tmp_bytes(), &mut |s: &mut Scratch<$T>| {
-                        let mut r = CKKSCiphertext::alloc(gl.n, gl.k, gl.base2k); module.ckks_neg_into(&mut r, &a, s).unwrap(); bytes(&r) }),
+                        let mut r = dst(); let e = module.ckks_neg_into(&mut r, &a, s); bytes(&r, e) }),
                     173 => $go(module.ckks_align_tmp_bytes(), &mut |s: &mut Scratch<$T>| {
                         let (mut x, mut y) = (mk(176, 177), mk(178, 179)); let mut sc = big(module.ckks_rescale_tmp_bytes()); module.ckks_rescale_assign(&mut y, 5, sc.borrow()).unwrap();
-                        module.ckks_align_assign(&mut x, &mut y, s).unwrap(); let mut o = bytes(&x); o.extend(bytes(&y)); o }),
+                        let e = module.ckks_align_assign(&mut x, &mut y, s); let mut o = ckks_out(&x, e); o.extend(y.data().data.clone()); o }),
                     // ---- composites (delegates to the operations above on ONE scratch)
                     174 => $go(module.ckks_sub_tmp_bytes(), &mut |s: &mut Scratch<$T>| {
-                        let mut r = CKKSCiphertext::alloc(gl.n, gl.k, gl.base2k); module.ckks_sub_into(&mut r, &a, &b, s).unwrap(); bytes(&r) }),
-                    175 => $go(module.ckks_mul_add_ct_tmp_bytes(&gl, &kl), &mut |s: &mut Scratch<$T>| {
-                        let mut r = mk(182, 183); module.ckks_mul_add_ct_into(&mut r, &a, &b, &tkp, s).unwrap(); bytes(&r) }),
-                    176 => $go(module.ckks_mul_sub_ct_tmp_bytes(&gl, &kl), &mut |s: &mut Scratch<$T>| {
-                        let mut r = mk(182, 183); module.ckks_mul_sub_ct_into(&mut r, &a, &b, &tkp, s).unwrap(); bytes(&r) }),
+                        let mut r = dst(); let e = module.ckks_sub_into(&mut r, &a, &b, s); bytes(&r, e) }),
+                    175 => $go(mx(module.ckks_mul_add_ct_tmp_bytes(&gld, &kl), module.ckks_mul_add_ct_tmp_bytes(&gl, &kl)), &mut |s: &mut Scratch<$T>| {
+                        let mut r = mkd(182, 183); let e = module.ckks_mul_add_ct_into(&mut r, &a, &b, &tkp, s); bytes(&r, e) }),
+                    176 => $go(mx(module.ckks_mul_sub_ct_tmp_bytes(&gld, &kl), module.ckks_mul_sub_ct_tmp_bytes(&gl, &kl)), &mut |s: &mut Scratch<$T>| {
+                        let mut r = mkd(182, 183); let e = module.ckks_mul_sub_ct_into(&mut r, &a, &b, &tkp, s); bytes(&r, e) }),
                     177 => { let c = mk(184, 185);
-                        $go(module.ckks_dot_product_ct_tmp_bytes(2, &gl, &kl), &mut |s: &mut Scratch<$T>| {
-                            let mut r = CKKSCiphertext::alloc(gl.n, gl.k, gl.base2k);
-                            module.ckks_dot_product_ct(&mut r, &[&a, &b], &[&b, &c], &tkp, s).unwrap(); bytes(&r) }) }
+                        $go(mx(module.ckks_dot_product_ct_tmp_bytes(2, &gld, &kl), module.ckks_dot_product_ct_tmp_bytes(2, &gl, &kl)), &mut |s: &mut Scratch<$T>| {
+                            let mut r = dst();
+                            let e = module.ckks_dot_product_ct(&mut r, &[&a, &b], &[&b, &c], &tkp, s); bytes(&r, e) }) }
                     178 => { let c = mk(184, 185);
                         // three factors need two multiplicative levels of budget
                         let ins: Vec<&CKKSCiphertext<Vec<u8>>> = if kct - ld - b2k >= 2 * ld + 10 { vec![&a, &b, &c] } else { vec![&a, &b] };
-                        $go(module.ckks_mul_many_tmp_bytes(ins.len(), &gl, &kl), &mut |s: &mut Scratch<$T>| {
-                            let mut r = CKKSCiphertext::alloc(gl.n, gl.k, gl.base2k);
-                            module.ckks_mul_many(&mut r, &ins, &tkp, s).unwrap(); bytes(&r) }) }
-                    _ => { let c = mk(184, 185);
+                        $go(mx(module.ckks_mul_many_tmp_bytes(ins.len(), &gld, &kl), module.ckks_mul_many_tmp_bytes(ins.len(), &gl, &kl)), &mut |s: &mut Scratch<$T>| {
+                            let mut r = dst();
+                            let e = module.ckks_mul_many(&mut r, &ins, &tkp, s); bytes(&r, e) }) }
+                    179 => { let c = mk(184, 185);
                         $go(module.ckks_add_many_tmp_bytes(), &mut |s: &mut Scratch<$T>| {
-                            let mut r = CKKSCiphertext::alloc(gl.n, gl.k, gl.base2k);
-                            module.ckks_add_many(&mut r, &[&a, &b, &c], s).unwrap(); bytes(&r) }) }
+                            let mut r = dst();
+                            let e = module.ckks_add_many(&mut r, &[&a, &b, &c], s); bytes(&r, e) }) }
+                    // ---- constants (real only / imaginary only / both: only the last takes the GLWE temporary)
+                    197 => $go(module.ckks_mul_pt_const_tmp_bytes(&gld, &gl, &meta_pt), &mut |s: &mut Scratch<$T>| {
+                        let mut r = dst(); let e = module.ckks_mul_pt_const_rnx_into(&mut r, &a, &cst, meta_pt, s); bytes(&r, e) }),
+                    198 => $go(module.ckks_add_pt_const_tmp_bytes(), &mut |s: &mut Scratch<$T>| {
+                        let mut r = dst(); let e = module.ckks_add_pt_const_rnx_into(&mut r, &a, &cst, meta_pt, s); bytes(&r, e) }),
+                    _ => $go(module.ckks_mul_add_pt_const_tmp_bytes(&gld, &gl, &meta_pt), &mut |s: &mut Scratch<$T>| {
+                        let mut r = mkd(182, 183); let e = module.ckks_mul_add_pt_const_rnx_into(&mut r, &a, &cst, meta_pt, s); bytes(&r, e) }),
                 }
     }};
 }
+
+/// an operation that REJECTS its operands (Err) is not a scratch matter: the marker makes both fills agree
+fn ckks_out<E>(c: &CKKSCiphertext<Vec<u8>>, r: Result<(), E>) -> Vec<u8> { if r.is_ok() { c.data().data.clone() } else { vec![0xEE] } }
 
 fn formula_only<BE: Backend>(need: usize, _f: &mut dyn FnMut(&mut Scratch<BE>) -> Vec<u8>) -> Vec<i128> { vec![need as i128] }
 
@@ -859,7 +896,7 @@ fn run(r: &Rec) -> Vec<Vec<i128>> {
         assert!(be == 1 && mode == 2, "c12: fhe_uint preparation runs on FFT64Ref, independence phase only");
         return vec![fhe_uint_ref::run(op, p)];
     }
-    if (160..=179).contains(&op) {
+    if (160..=179).contains(&op) || (197..=199).contains(&op) {
         use poulpy_cpu_ref::{FFT64Ref, NTT120Ref};
         let v: Vec<i128> = match be {
             1 => ckks_body!(FFT64Ref, op, p, exact_twice::<FFT64Ref>),
@@ -1095,6 +1132,24 @@ pub fn generate(tier: &str, seed: u64) -> Vec<Rec> {
             if n >= 8 && n <= 16 && refbe {
                 for &(b2k, kct, ld) in &[(17i128, 85i128, 30i128), (12, 84, 20)] {
                     for op in 160..=179i64 { g.push(op, vec![be, n, b2k, kct, ld], true, false); }
+                    // destination strictly larger / smaller than the operands; constants real / imaginary / both; plaintext log_delta below / above
+                    for &kdst in &[kct + 3 * b2k, kct - 2 * b2k] {
+                        for &op in &[162i64, 163, 164, 165, 167, 168, 169, 170, 171, 172, 174, 175, 176, 177, 178, 179] {
+                            g.push(op, vec![be, n, b2k, kct, ld, kdst], true, false);
+                        }
+                    }
+                    for &kdst in &[0i128, kct + 3 * b2k, kct - 2 * b2k] {
+                        for cvar in 0..3i128 {
+                            for &ldpt in &[0i128, ld - 5, ld + 5] {
+                                for &op in &[197i64, 198, 199] { g.push(op, vec![be, n, b2k, kct, ld, kdst, cvar, ldpt], true, false); }
+                            }
+                        }
+                    }
+                    for &ldpt in &[ld - 5, ld + 5] {
+                        for &kdst in &[0i128, kct + 3 * b2k] {
+                            for &op in &[161i64, 165, 171] { g.push(op, vec![be, n, b2k, kct, ld, kdst, 0, ldpt], true, false); }
+                        }
+                    }
                 }
             }
             // ---- core
